@@ -27,6 +27,10 @@ func corpus(c *corr.Ctx) {
 	runAsyncDet(c, &AsyncCase{Kind: "async", Size: 8, Ops: []AOp{{K: "push", ID: 1, Fails: true}, {K: "start"}, {K: "exec"}, {K: "closebegin"}, {K: "closeend"}}}, "corpus-close-after-error")
 	runAsyncDet(c, &AsyncCase{Kind: "async", Size: 8, OnErrBlocks: true, Ops: []AOp{{K: "push", ID: 1, Fails: true}, {K: "start"}, {K: "exec"}, {K: "closebegin"}, {K: "closeend"}}}, "corpus-close-during-error")
 	runAsyncDet(c, &AsyncCase{Kind: "async", Size: 8, Ops: []AOp{{K: "push", ID: 1}, {K: "start"}, {K: "closebegin"}, {K: "closeend"}}}, "corpus-close-before-error")
+	// the held callback fails while Close is waiting for the consumer and OnError blocks until the
+	// Processor's context is done: Close cancels that context first, so it must still return
+	runAsyncDet(c, &AsyncCase{Kind: "async", Size: 2, OnErrBlocks: true, Ops: []AOp{{K: "start"}, {K: "push", ID: 1, Fails: true}, {K: "push", ID: 2},
+		{K: "closebegin"}, {K: "closeend"}}}, "corpus-error-during-close")
 }
 
 // guarded runs one case and turns a panic of the code under test (in the calling goroutine) into a
@@ -48,6 +52,8 @@ func Run(c *corr.Ctx) {
 		"New on sizes 0..1030, 2^k-1, 2^k, 2^k+1, random uint64; blocking Pull woken by Push/Close; " +
 		"ping-pong liveness workload (consumer asleep in Pull, 1..8 producers each pushing one item and waiting with a 2 s watchdog until it was pulled; 10^6 rounds quick, 10^7 thorough; bare ring and Processor); " +
 		"owner scenarios: real Server + raw RTSP client / library Client over TCP and UDP, every request sequence over {PLAY|RECORD, PAUSE} the state machine allows (client side: also the ones the client must refuse) up to length 3 (thorough 4), after each request N writes must arrive exactly once and in order while active and not at all while paused, and the number of goroutines in Processor.runInner must be exactly the number of active queues (0 after teardown); " +
+		"capacity probes: owner x session shape {client record, client play std / std+back channel / back channel only, server session play std / with back channel, server session record, multicast writer} x WriteQueueSize {8,16,32,256} x {TCP, UDP}: the consumer is stalled with a blocking item (verif hook), writes go through the public write path until the first refusal: accepted == capacity of that shape, refusal = Err…WriteQueueFull, everything accepted is delivered once and in order afterwards; " +
+		"error-during-close scenarios: an item held in the owner's queue fails while (or just before) the owner closes the queue for PAUSE / TEARDOWN / second PLAY / connection close / Server.Close / Client.Pause / Client.Close, over TCP and UDP, play and record: the action completes within 3 s, no consumer goroutine survives, Client.Close and Server.Close return; " +
 		"concurrent (black box): 1..8 producers + consumer + closer on the real RingBuffer and on the real Processor, history checked for linearizability to the bounded FIFO (porcupine) and for the direct clauses; " +
 		"deterministic Processor schedules (gated callbacks, injected errors, Close windows; every well-formed schedule of a fixed length over {push, failing push, start, exec, closebegin, closeend} for capacities 1,2 + random ones) compared with the Lean model; non-trivial = more than one operation; distinct = distinct op-line sequences / run configurations")
 	if c.Replay != nil {
@@ -74,6 +80,8 @@ func Run(c *corr.Ctx) {
 	}
 	if os.Getenv("VERIF_RING_ONLY") == "owner" { // development aid
 		ownerScenarios(c, c.N(3, 4))
+		capacityProbes(c)
+		errCloseScenarios(c)
 		return
 	}
 	corpus(c)
@@ -166,6 +174,14 @@ func Run(c *corr.Ctx) {
 	if stop("owner scenarios") {
 		return
 	}
+	capacityProbes(c)
+	if stop("capacity probes") {
+		return
+	}
+	errCloseScenarios(c)
+	if stop("error-during-close scenarios") {
+		return
+	}
 	raceTier(c)
 }
 
@@ -219,6 +235,21 @@ func replay(c *corr.Ctx) {
 			panic(err)
 		}
 		checkBlockingPull(c, b.Size, b.Prefill, b.Close)
+	case "errclose":
+		var ec ErrCloseCase
+		if err := json.Unmarshal(c.Replay, &ec); err != nil {
+			panic(err)
+		}
+		for i := 0; i < 3 && !enough(); i++ {
+			q := ec
+			runErrClose(c, &q)
+		}
+	case "capacity":
+		var cc CapCase
+		if err := json.Unmarshal(c.Replay, &cc); err != nil {
+			panic(err)
+		}
+		runCapacity(c, &cc)
 	case "owner":
 		var oc OwnerCase
 		if err := json.Unmarshal(c.Replay, &oc); err != nil {
